@@ -38,6 +38,10 @@ import (
 //
 // The slice glyphs must start with glyph ID 0 to represent the notdef glyph.
 func (f *Font) Subset(glyphs []glyph.ID) *Font {
+	// The subsetter appends to its glyph list: work on a copy, so that the
+	// caller's slice (and the spare capacity behind it) is left alone.
+	glyphs = append([]glyph.ID(nil), glyphs...)
+
 	res := f.Clone()
 
 	s := subsetter{
